@@ -1,5 +1,6 @@
 """Shared engine of the loader properties: run the implementation and the model on one script and compare."""
 import re
+import zlib
 
 import observe
 
@@ -9,7 +10,11 @@ SYNTAX_RE = re.compile(r"Blackbird SyntaxError \(line (\d+):(\d+)\)")
 def impl_outcome(impl, text, loader=None):
     """-> ('ok', program) | ('error', exception)"""
     try:
-        p = (loader or impl.loads)(text)
+        if loader is None and text.isascii() and zlib.crc32(text.encode()) % 4 == 0 and hasattr(impl, "load_via_file"):
+            # every fourth script goes through the other entry point (blackbird.load of a file holding the same text)
+            p = impl.load_via_file(text)
+        else:
+            p = (loader or impl.loads)(text)
         return "ok", p
     except RecursionError as e:
         return "error", e
